@@ -105,6 +105,25 @@ class Budget:
         self.inc_s = 5 if tier == "quick" else 20          # per query, incremental session
         self.full_s = 20 if tier == "quick" else 240       # per query and configuration, standalone portfolio
         self.max_paths = 64 if tier == "quick" else 160
+        # wall-clock budget of the solver work of one property run: a change that makes thousands of obligations hard must
+        # not turn a quick check into hours of time-outs.  Queries after the deadline come back `unknown` (listed, never counted
+        # as discharged); after `max_timeouts` queries have exhausted the full race the remaining ones only get its first stage.
+        self.t_end = uptime() + (780 if tier == "quick" else 6 * 3600)
+        self.max_timeouts = 80 if tier == "quick" else 2000
+        self.timeouts = 0
+        self.cfg_end = None
+
+    def expired(self):
+        return uptime() > self.t_end or (self.cfg_end is not None and uptime() > self.cfg_end)
+
+    def start_config(self, remaining):
+        """each configuration gets at most twice its even share of what is left (one expensive configuration must not
+        starve the others)"""
+        left = max(0.0, self.t_end - uptime())
+        self.cfg_end = uptime() + max(45.0, 2.0 * left / max(1, remaining))
+
+    def per_query_s(self):
+        return self.full_s if self.timeouts < self.max_timeouts else 3
 
 
 class Result:
@@ -184,7 +203,7 @@ def f64_eval(h, scenario, cfg, inputs, profile="dev"):
 EXACT_NATIVE = {"C18.epsilon_abs"}
 
 
-def numeric_failures(doc64, prefixes, tol=1e-6):
+def numeric_failures(doc64, prefixes, tol=1e-6, elementwise=False):
     """obligations that fail numerically in a native f64 run: list of (name, label, lhs, rhs)"""
     bad = []
     if doc64.get("crash"):
@@ -211,7 +230,7 @@ def numeric_failures(doc64, prefixes, tol=1e-6):
                 # quantities that are exact in floating point as well (|eps| is stored, not computed)
                 if l != r:
                     bad.append((ob["name"], label, l, r))
-            elif abs(l - r) > tol * scale:
+            elif abs(l - r) > tol * (max(abs(l), abs(r), 1e-300) if elementwise else scale):
                 bad.append((ob["name"], label, l, r))
         for (label, l, op, r) in ob.get("ineqs", []):
             if isinstance(l, (int, float)) and isinstance(r, (int, float)) and op == "<=" and l > r + tol * max(1.0, abs(l), abs(r)):
@@ -576,7 +595,12 @@ def solve_many_variants(variants, budget, uf, stats, workers=10):
     local = [dict() for _ in variants]
 
     def one(i):
-        v, _ = smt.solve_variants(variants[i], budget.full_s, uf=uf, stats=local[i])
+        if getattr(budget, "expired", None) and budget.expired():
+            return smt.Verdict("unknown", "none", 0.0, "wall-clock budget of this run exhausted")
+        t = budget.per_query_s() if hasattr(budget, "per_query_s") else budget.full_s
+        v, _ = smt.solve_variants(variants[i], t, uf=uf, stats=local[i])
+        if v.result not in ("sat", "unsat") and hasattr(budget, "timeouts"):
+            budget.timeouts += 1
         return v
     with ThreadPoolExecutor(max_workers=workers) as ex:
         out = list(ex.map(one, range(len(variants))))
@@ -599,7 +623,12 @@ def solve_many(base, goals, budget, uf, stats, workers=10):
     local = [dict() for _ in goals]
 
     def one(i):
-        v, _ = smt.solve_text(base, goals[i], budget.full_s, uf=uf, stats=local[i])
+        if getattr(budget, "expired", None) and budget.expired():
+            return smt.Verdict("unknown", "none", 0.0, "wall-clock budget of this run exhausted")
+        t = budget.per_query_s() if hasattr(budget, "per_query_s") else budget.full_s
+        v, _ = smt.solve_text(base, goals[i], t, uf=uf, stats=local[i])
+        if v.result not in ("sat", "unsat") and hasattr(budget, "timeouts"):
+            budget.timeouts += 1
         return v
     with ThreadPoolExecutor(max_workers=workers) as ex:
         out = list(ex.map(one, range(len(goals))))
@@ -645,6 +674,10 @@ def record_violation(h, res, scenario, cfg, doc, name, detail, prefixes, replay_
                 # facts about the SVD contract (input matrix, tolerance) have no native counterpart: they are
                 # confirmed through any obligation of the property that fails natively for the same inputs
                 bad = numeric_failures(d64, [name] if (native_confirm is True and not name.startswith("SVD.")) else [p for p in prefixes if not p.startswith("SVD")])
+                if not bad and native_confirm is True and label and not name.startswith("SVD."):
+                    # the solver's counterexample may differ in ONE element that is tiny against the rest of its matrix (a block
+                    # that is zeroed relative to another block's scale): confirm that element with an elementwise tolerance
+                    bad = [b for b in numeric_failures(d64, [name], elementwise=True) if b[1] == label]
                 if native_confirm == "nonfinite":
                     bad = [b for b in bad if not isinstance(b[2], (int, float)) or not isinstance(b[3], (int, float))] or \
                           ([("crash", "", 0, 0)] if d64.get("crash") else [])
@@ -678,6 +711,9 @@ def explore(h, res, scenario, cfg, prefixes, budget, replay_dir):
     paths = 0
     max_paths = min(budget.max_paths, int(cfg.get("maxpaths", budget.max_paths))) if isinstance(cfg, dict) else budget.max_paths
     while work and paths < max_paths:
+        if getattr(budget, "expired", None) and budget.expired():
+            res.undischarged.append((scenario + ":" + ",".join(f"{k}={v}" for k, v in sorted(cfg.items())), "configuration not explored", "wall-clock budget of this run exhausted"))
+            break
         inputs, bound = work.pop(0)
         doc = h.run("sym", scenario, cfg, inputs=inputs)
         if doc.get("crash"):
@@ -704,6 +740,9 @@ def explore(h, res, scenario, cfg, prefixes, budget, replay_dir):
         names = var_names(arena, enc.ctx_cone)
         ctx_defs = enc.pdefs + enc._plain_cons(enc.ctx_cone, False) + enc.asm
         for i in range(bound, len(trace)):
+            if getattr(budget, "expired", None) and budget.expired():
+                res.frontier_unknown += len(trace) - i
+                break
             prefix = enc.pc[:i]
             a, op, b, o = trace[i]
             flip = [f"(assert {arena.rel(a, op, b, not o)})"]
